@@ -17,6 +17,9 @@ Line-protocol driver for the C06 model (fan-out queue with consumer groups).
       meta write is delayed while Sync+GC are called = create; sync; gc — an Ack whose meta write is
       delayed while Consume is called = ack; consume)
 
+  ackrewind <g> <n> <m> | rewindack <g> <m> <n>   (round 12, SetConsumedSeq against Ack on one group, the
+      thread `wSet` of Model/FanOutMicro.lean: the one that holds the lock first is first — ack; setc / setc; ack)
+
   pending <g> | isempty <g>      (observations: ConsumerGroup.Pending / IsEmpty, Model/FanOutRepl.lean)
   expire           (queue part of replica/partition.go IsExpire: Sync; GC; every live group that IsEmpty is
       stopped: answers `ok stopped=<ids> | …`)
@@ -187,6 +190,22 @@ def pstepLine (v : Variant) (ps : PState) (ws : List String) : PState × String 
       let r := step v s1 (.consume g)
       ({ ps with s := r.1 }, showRes r.2 ++ " | " ++ showState r.1)
     | _, _ => (ps, "bad-op")
+  | ["ackrewind", g, n, m] =>
+    -- round 12: Ack ‖ SetConsumedSeq on one group, Ack holds the read lock first: ack, then the rewind
+    match g.toNat?, n.toInt?, m.toInt? with
+    | some g, some n, some m =>
+      let s1 := (step v ps.s (.ack g n)).1
+      let r := step v s1 (.setConsumed g m)
+      ({ ps with s := r.1 }, showRes r.2 ++ " | " ++ showState r.1)
+    | _, _, _ => (ps, "bad-op")
+  | ["rewindack", g, m, n] =>
+    -- round 12: SetConsumedSeq holds the write lock first: the rewind, then the ack against the new window
+    match g.toNat?, m.toInt?, n.toInt? with
+    | some g, some m, some n =>
+      let s1 := (step v ps.s (.setConsumed g m)).1
+      let r := step v s1 (.ack g n)
+      ({ ps with s := r.1 }, showRes r.2 ++ " | " ++ showState r.1)
+    | _, _, _ => (ps, "bad-op")
   | ["pending", g] =>
     match g.toNat? with
     | some g =>
